@@ -326,7 +326,7 @@ def st_case(draw, multi, racy=False):
     salts = draw(st.permutations(list(range(1, 40))))[:n]
     chunks = [draw(st.lists(st.integers(0, 3), min_size=1, max_size=draw(st.sampled_from([1, 2, 2, 3]))))
               for _ in range(n)]
-    workers = draw(st.sampled_from([1, 2, 2, 3, 3, 4, 5, 6, 7, 8]))
+    workers = draw(st.sampled_from([1, 1, 2, 2, 3, 3, 4, 5, 6, 8]))
     if multi:
         targets = draw(st.permutations(list(KIND_THINGS)))[:draw(st.sampled_from([2, 2, 3]))]
         as_str = False
@@ -339,8 +339,9 @@ def st_case(draw, multi, racy=False):
     forbid = storage and draw(st.integers(0, 5)) == 0
     # failing runs
     fail = {}
-    nfail = draw(st.sampled_from([0, 0, 1, 1, 2, 3]))
-    nfail = min(nfail, n - 1)
+    # (up to all runs but one fail: more failures than scheduling slots, 2 * max_workers, is a class of its own)
+    nfail = draw(st.sampled_from([0, 0, 1, 1, 2, 3, n - 2, n - 1]))
+    nfail = max(0, min(nfail, n - 1))
     order = draw(st.permutations(list(range(n))))
     for i in order[:nfail]:
         if forbid:
@@ -794,6 +795,8 @@ def classes_of(d, rec=None, S=None):
     if d["fail"]:
         cl.append("fail+ignore" if d["ignore_errors"] else "fail+raise")
         cl += ["fail@" + s.split(":")[0] for s in set(d["fail"].values())]
+        if d["ignore_errors"] and len(d["fail"]) >= 2 * d["workers"]:
+            cl.append("ignored_failures>=2*workers")  # more ignored failures than multi_run has scheduling slots
     if d["forbid"]:
         cl.append("forbid_creation")
     if d["prestore"]:
@@ -927,7 +930,8 @@ def _sig_f1530(sub, desc, bucket, message):
 
 SUBCHECKS = [
     SubCheck("single", run_case, strategy=lambda: st_case(multi=False), quick=320, thorough=14000, min_per_shard=5,
-             required_classes=("preempted_in_resolution", "failing_runs_omitted", "exception_propagated")),
+             required_classes=("preempted_in_resolution", "failing_runs_omitted", "exception_propagated",
+                               "ignored_failures>=2*workers")),
     SubCheck("multi", run_case, strategy=lambda: st_case(multi=True), quick=200, thorough=8000, min_per_shard=5,
              required_classes=("preempted_in_resolution",)),
     SubCheck("coldrace", run_case, strategy=lambda: st_case(multi=False, racy=True), quick=200, thorough=8000,
